@@ -250,6 +250,39 @@ def _s_select(ctx):
     ctx.ensures.append("(%s == ((%s != 0) ? %s : %s))" % (R.lane(0), c.scalar, a.lane(0), b.lane(0)))
 
 
+# ---- clip: scalar overload and batch kernel against one specification (C17) ----------------------------------------------------------
+def _clip_expect(ctx, x, lo, hi):
+    return "(%s ? %s : (%s ? %s : %s))" % (ctx.spec("lt", x, lo), lo, ctx.spec("lt", hi, x), hi, x)
+
+
+def _clip_pre(ctx, x, lo, hi):
+    pre = [ctx.spec("le", lo, hi)]            # the library asserts ordered bounds
+    if ctx.isfloat:
+        pre += ["!%s" % ctx.spec("isnan", v) for v in (x, lo, hi)]
+    return pre
+
+
+@row("clip", "BBB", "B", prop="C17")
+def _clip_batch(ctx):
+    R = ctx.ret = bind_ret(ctx, "B")
+    x, lo, hi = ctx.args
+    ens = []
+    for i in range(ctx.n):
+        ctx.requires += _clip_pre(ctx, x.lane_pre(i), lo.lane_pre(i), hi.lane_pre(i))
+        e = _clip_expect(ctx, x.lane(i), lo.lane(i), hi.lane(i))
+        ens.append(ctx.spec("samenum", R.lane(i), e) if ctx.isfloat else "(%s == %s)" % (R.lane(i), e))
+    ctx.ensures += conj(ens, 4)
+
+
+@row("clip", "SSS", "S", prop="C17")
+def _clip_scalar(ctx):
+    x, lo, hi = [a.lane(0) for a in ctx.args]
+    R = ctx.ret = Arg("S", ctx.tid, None, scalar="__CPROVER_return_value")
+    ctx.requires += _clip_pre(ctx, x, lo, hi)
+    e = _clip_expect(ctx, x, lo, hi)
+    ctx.ensures.append(ctx.spec("samenum", R.lane(0), e) if ctx.isfloat else "(%s == %s)" % (R.lane(0), e))
+
+
 # ---- C02: floating point -------------------------------------------------------------------------------------------
 def _predicate(spec):
     def build(ctx):
